@@ -279,7 +279,8 @@ pub fn c04(ctx: &mut Ctx) -> R {
     let via_added = !use_call && ctx.chance(1, 3);
     let despite = !use_call && ctx.chance(1, 6);
     let method = if despite { *ctx.pick(&["GET", "DELETE", "OPTIONS"]) } else { method };
-    let (mut s, _head) = match reach_sender_ex(ctx, SendFraming::Sized(n), use_call, method, despite, via_added) {
+    let sized = if ctx.chance(1, 8) { SendFraming::SizedWithOtherCoding(n, ctx.draw(4) as u8) } else { SendFraming::Sized(n) };
+    let (mut s, _head) = match reach_sender_ex(ctx, sized, use_call, method, despite, via_added) {
         Ok(v) => v,
         Err(e) => fail!("FOREIGN", "", "cannot reach the body state: {}", e),
     };
@@ -427,6 +428,12 @@ pub fn c04(ctx: &mut Ctx) -> R {
             fail!("C04.finished_early", "", "body reported finished with {} of {} bytes still to send", remaining, n);
         }
     }
+    // advancing out of the body stage succeeds iff the body is reported finished
+    let fin = s.finished();
+    let adv = s.advance();
+    if adv != fin {
+        fail!("C04.advance_disagrees", if adv { "advanced-unfinished" } else { "refused-finished" }, "body finished = {} ({} of {} bytes outstanding) but advancing to the response {}", fin, remaining, n, if adv { "succeeded" } else { "was refused" });
+    }
     ctx.nontrivial = moved_ops >= 1 && ops >= 2 || refused > 0;
     Ok(())
 }
@@ -444,9 +451,13 @@ pub fn c18(ctx: &mut Ctx) -> R {
             4 | 5 => SendFraming::ExplicitChunked,
             _ => SendFraming::ExplicitChunkedVariant((ctx.index / 8 % 12) as u8),
         }
+    } else if ctx.index % 6 == 1 {
+        // a body shorter than most buffers: the advertised size is n itself all the same
+        SendFraming::Sized(5000)
     } else {
         SendFraming::Sized(1 << 50)
     };
+    let small_sized = framing == SendFraming::Sized(5000);
     let (mut s, _) = match reach_sender(ctx, framing, false, "POST", false) {
         Ok(v) => v,
         Err(e) => fail!("FOREIGN", "", "cannot reach the body state: {}", e),
@@ -475,7 +486,7 @@ pub fn c18(ctx: &mut Ctx) -> R {
             ensure!(m >= p, "C18.not_monotone", "calculate_max_input({}) = {} < calculate_max_input({}) = {}", n, m, n - 1, p);
         }
         prev = Some(m);
-        if m > 0 {
+        if m > 0 && !small_sized {
             let r = s.write(ctx, &input[..m], &mut out[..n]);
             match r {
                 Ok((c, p)) => {
